@@ -372,10 +372,11 @@ pub fn long_case(two_point: bool, f: Flavour, l: usize, max_dev: usize) -> (u64,
     (st.leaves, st.choice_points, viols)
 }
 pub fn long_lengths(quick: bool) -> Vec<usize> {
+    // dense, so that a threshold at any length in the range is crossed (not only powers of two)
     if quick {
-        vec![63, 64, 65, 129]
+        (9..=80).chain([97, 100, 127, 128, 129]).collect()
     } else {
-        vec![31, 32, 33, 63, 64, 65, 66, 100, 127, 128, 129, 130, 257]
+        (9..=140).chain([191, 192, 193, 255, 256, 257, 300]).collect()
     }
 }
 
